@@ -417,7 +417,9 @@ class Monitor:
         for tag, i1, i2, j1, j2 in sm.get_opcodes():
             if tag == "equal":
                 continue
-            dele += bl[i1:i2]
+            # a name that directly follows 'end' / 'end <keyword>' is the documented optional closing name even when, in an ugly
+            # fixture, it does not match the declared one ('function func_1 ... end function func1;')
+            dele += [w for k, w in enumerate(bl[i1:i2], i1) if not ("end" in bl[max(0, k - 2):k] and tag == "delete" and w not in ("(", ")", ":", ";", ","))]
             ins += al[j1:j2]
         present = set(bl)
         for w in ins:
@@ -894,8 +896,8 @@ def l_describe(values, p):
     if p.get("vary") and p.get("window"):
         eng = core.ConcreteEngine(values)
         new = vary_layout(eng, lines, tuple(p["window"]), p["vary"], p.get("vary_seed", 0))
-        out["layout_choices"] = {k: v for k, v in values.items() if k.startswith(("gap", "eol", "indent"))}
-        out["lines"] = {i + 1: new[i] for i in range(max(0, p["window"][0] - 1), min(len(new), p["window"][1] + 5))}
+        out["layout_choices"] = {k: v for k, v in values.items() if k.startswith(("gap", "eol", "indent", "explode"))}
+        out["lines"] = {i + 1: new[i] for i in range(max(0, p["window"][0] - 1), min(len(new), p["window"][1] + 8))}
         return out
     if p.get("window"):
         eng = core.ConcreteEngine(values)
@@ -1105,6 +1107,47 @@ def line_is_relayoutable(s):
     return True
 
 
+def explode_parens(line):
+    """'x (a, b, c) y' -> ['x (', '      a,', '      b,', '      c', '    ) y'] for the first parenthesised comma list of the line, else None"""
+    toks = tokens_mod.create(line)
+    if any(t.startswith("--") or t.startswith("/*") for t in toks):
+        return None
+    depth = 0
+    start = None
+    for j, t in enumerate(toks):
+        if t == "(":
+            if depth == 0:
+                start = j
+            depth += 1
+        elif t == ")":
+            depth -= 1
+            if depth < 0:
+                return None
+            if depth == 0 and start is not None:
+                inner = toks[start + 1:j]
+                items, cur, d = [], [], 0
+                for u in inner:
+                    if u == "(":
+                        d += 1
+                    elif u == ")":
+                        d -= 1
+                    if u == "," and d == 0:
+                        items.append("".join(cur).strip())
+                        cur = []
+                    else:
+                        cur.append(u)
+                items.append("".join(cur).strip())
+                if len(items) < 2 or not all(items):
+                    start = None
+                    continue
+                out = ["".join(toks[:start + 1]).rstrip()]
+                for k, it in enumerate(items):
+                    out.append("      " + it + ("," if k < len(items) - 1 else ""))
+                out.append("    )" + "".join(toks[j + 1:]))
+                return out
+    return None
+
+
 def vary_layout(eng, lines, window, points, seed):
     """structural neighbourhood of a fixture: at `points` randomly chosen positions of the window lines (whitespace gaps, line
     start, line end) the engine forks over layout alternatives. Returns the new list of lines."""
@@ -1123,10 +1166,24 @@ def vary_layout(eng, lines, window, points, seed):
                 cands.append((i, "gap", j))
         if comment_at == len(toks):
             cands.append((i, "eol", len(toks)))
+    # one more alternative per window: a parenthesised comma list on one line is written one item per line with the closing
+    # parenthesis on a line of its own (a common multi-line style that most fixtures only show in their rule's own construct)
+    exploded = None
+    for i in range(window[0], min(window[1], len(lines) - 1) + 1):
+        ex = explode_parens(lines[i]) if line_is_relayoutable(lines[i]) else None
+        if ex:
+            if eng.choose("explode", 2) == 1:
+                exploded = (i, ex)
+            break
+    if exploded:
+        cands = [c for c in cands if c[0] != exploded[0]]
     chosen = set(rnd.sample(cands, min(points, len(cands))))
     out = []
     n = 0
     for i, s_ in enumerate(lines):
+        if exploded and i == exploded[0]:
+            out.extend(exploded[1])
+            continue
         if not any(c[0] == i for c in chosen):
             out.append(s_)
             continue
